@@ -977,7 +977,7 @@ func gen(a vh.Args) {
 	r := vh.NewRand(a.Seed)
 	w := vh.Create(a.Cases)
 	defer w.Close()
-	nCM, nImg, nLoc, nLS, nE2E := 400, 120, 60, 80, 2
+	nCM, nImg, nLoc, nLS, nE2E := 400, 120, 60, 80, 4
 	if a.Tier == "thorough" {
 		nCM, nImg, nLoc, nLS, nE2E = 6000, 1500, 400, 800, 36
 	}
